@@ -34,12 +34,24 @@ def strip_lang_subdomains_from_hostname(hostname):
     return hostname
 
 
+def strip_lang_subdomains_from_normalized_hostname(hostname):
+    # NOTE: until nothing changes, since "fr.amp-lemonde.fr" hides an "amp-"
+    # that normalization only drops when it comes first
+    while True:
+        stripped = strip_lang_subdomains_from_hostname(hostname)
+
+        if stripped == hostname:
+            return hostname
+
+        hostname = normalize_hostname(stripped)
+
+
 def fingerprint_hostname(hostname, strip_suffix=False):
     hostname = normalize_hostname(hostname)
 
     # NOTE: same order as fingerprint_url: the language subdomain can only be
     # recognized while the suffix is still there
-    hostname = strip_lang_subdomains_from_hostname(hostname)
+    hostname = strip_lang_subdomains_from_normalized_hostname(hostname)
 
     if strip_suffix:
         # TODO: this is not performant because the code path reparses again
@@ -80,33 +92,45 @@ def fingerprint_url(url, unsplit=True, strip_suffix=False, platform_aware=False)
 
     url = url.lower()
 
-    splitted = normalize_url(
-        url,
-        unsplit=False,
-        query_item_filter=lang_query_item_filter,
-        platform_aware=platform_aware,
-        infer_redirection=False,
-    )
-    _, netloc, path, query, fragment = splitted
+    # NOTE: until nothing changes, since the language subdomain can hide
+    # something normalization only handles when it comes first
+    # ("fr.amp-lemonde.fr", and "fr.amp-facebook.com" when platform-aware)
+    while True:
+        splitted = normalize_url(
+            url,
+            unsplit=False,
+            query_item_filter=lang_query_item_filter,
+            platform_aware=platform_aware,
+            infer_redirection=False,
+        )
+        _, netloc, path, query, fragment = splitted
 
-    user, password, hostname, port = (
-        splitted.username,
-        splitted.password,
-        splitted.hostname,
-        splitted.port,
-    )
+        user, password, hostname, port = (
+            splitted.username,
+            splitted.password,
+            splitted.hostname,
+            splitted.port,
+        )
 
-    if hostname:
-        hostname = strip_lang_subdomains_from_hostname(hostname)
+        if not hostname:
+            break
 
-        if strip_suffix:
-            # TODO: this is not performant because the code path reparses again
-            r = split_suffix(hostname)
+        stripped_hostname = strip_lang_subdomains_from_hostname(hostname)
 
-            # NOTE: a hostname that is a bare suffix is kept as is, else
-            # nothing would be left of it
-            if r is not None and r[0]:
-                hostname, _ = r
+        if stripped_hostname == hostname:
+            break
+
+        netloc = unsplit_netloc(user, password, stripped_hostname, port)
+        url = urlunsplit(SplitResult("", netloc, path, query, fragment))
+
+    if hostname and strip_suffix:
+        # TODO: this is not performant because the code path reparses again
+        r = split_suffix(hostname)
+
+        # NOTE: a hostname that is a bare suffix is kept as is, else
+        # nothing would be left of it
+        if r is not None and r[0]:
+            hostname, _ = r
 
     # NOTE: lowercasing the input is not enough: unquoting can reveal uppercase
     # letters afterwards ("%C3%89", "%50")
